@@ -220,7 +220,8 @@ def run(ck):
     ck.rule = ("random model definitions as in C01 (1-4 states, 1-5 parameters, 1-4 events, all rate kinds incl. exponential and "
                "time-periodic, optional ODE terms) at exact rational points away from singularities; non-trivial = nS != nP and "
                ">= 2 events; distinct by JSON hash")
-    ck.coq_build("C03", [], extra=("Util.vo", "DerivsQc.vo"))
+    import gen_derivs
+    ck.coq_build("C03", [("DerivsGen", gen_derivs.generate())], extra=("Util.vo", "DerivsQc.vo"))
     common.name_assumptions(ck, "C03")
     rng = np.random.default_rng(ck.seed)
     N = ck.budget(45, 500)
